@@ -1,13 +1,21 @@
 import SynRBLModel.Driver.JsonUtil
 import SynRBLModel.Driver.Ops.Core
 import SynRBLModel.Driver.Ops.Pipeline
+import SynRBLModel.Driver.Ops.Aam
+import SynRBLModel.Driver.Ops.FG
+import SynRBLModel.Driver.Ops.Normalize
+import SynRBLModel.Driver.Ops.RuleDB2
 /-! Operation table of the driver: every layer contributes a partial dispatcher `dispatch? : String → Json → Option (R Json)`. -/
 namespace SynRBL.Drv
 open Lean
 
 def dispatchers : List (String → Json → Option (R Json)) := [
   Core.dispatch?,
-  Pipeline.dispatch?
+  Pipeline.dispatch?,
+  Aam.dispatch?,
+  FG.dispatch?,
+  Normalize.dispatch?,
+  RuleDB2.dispatch?
 ]
 
 def dispatch (op : String) (j : Json) : R Json :=
